@@ -1,0 +1,14 @@
+//go:build verif
+
+package nodis
+
+// VerifPointHook, when set, is called at marked points of the locking protocol (between a lookup
+// and the lock, before a new record is published, between a failed pop and the waiter
+// registration ...) so that the harness can widen race windows or record an event trace.
+var VerifPointHook func(id string)
+
+func verifPoint(id string) {
+	if h := VerifPointHook; h != nil {
+		h(id)
+	}
+}
